@@ -11,6 +11,7 @@ def run_cases(fn, cases, rule, bound, budget_s):
     t0 = time.time()
     ev = 0
     nontrivial = 0
+    seen = set()
     failures = []
     samples = []
     for case in cases:
@@ -25,7 +26,11 @@ def run_cases(fn, cases, rule, bound, budget_s):
             fails = [sc.fail(fn.__name__ + '.raised', fn.__name__, case, case, f'{type(e).__name__}: {e} | ' + traceback.format_exc(limit=2)[-300:])]
             fails[0]['error'] = True
         ev += 1
-        nontrivial += 1
+        # distinct = different case description; non-trivial = the scenario ran to its end on it (set up, solved where it solves, compared)
+        key = repr(sorted(case.items())) if isinstance(case, dict) else repr(case)
+        if key not in seen:
+            seen.add(key)
+            nontrivial += 1
         if len(samples) < 2:
             samples.append(dict(scenario=fn.__name__, case=case))
         for f in fails:
